@@ -106,7 +106,11 @@ def native_run(text, entry, inputs, timeout=30, san=True, env_extra=None):
     os.makedirs(REPLAY, exist_ok=True)
     inp = os.path.join(REPLAY, 'in_%d_%s.txt' % (os.getpid(), hashlib.sha256(repr(inputs).encode()).hexdigest()[:10]))
     write_inputs(inp, inputs)
-    env = dict(os.environ, VP_INPUTS=inp, ASAN_OPTIONS='detect_leaks=1:abort_on_error=0:exitcode=99',
+    import tempfile
+    import shutil
+    tmpd = tempfile.mkdtemp(prefix='fs_', dir=REPLAY)
+    os.makedirs(os.path.join(tmpd, 'ro_is_not_a_dir'), exist_ok=True)
+    env = dict(os.environ, VP_INPUTS=inp, VP_TMP=tmpd, ASAN_OPTIONS='detect_leaks=1:abort_on_error=0:exitcode=99',
                UBSAN_OPTIONS='print_stacktrace=1:halt_on_error=1:exitcode=98')
     if env_extra:
         env.update(env_extra)
@@ -121,6 +125,7 @@ def native_run(text, entry, inputs, timeout=30, san=True, env_extra=None):
         os.unlink(inp)
     except OSError:
         pass
+    shutil.rmtree(tmpd, ignore_errors=True)
     outs, notes, asserts, reach = [], [], [], []
     for ln in so.split('\n'):
         if ln.startswith('OUT '):
